@@ -999,3 +999,27 @@ def path_summaries(f: FuncInfo, g: CFG | None = None, max_paths: int = 512) -> l
 
     walk(g.entry, {}, {}, frozenset(), PathSummary())
     return out
+
+
+# ------------------------------------------------------------------------------------------ helpers the front end could not read in place
+def unread_helpers(prog: Program, f: FuncInfo) -> list[str]:
+    """Names of the *new* repository functions (unknown to the reference inventory, i.e. introduced by the change under analysis) that `f` still calls after
+    canonicalisation - helpers that could not be inlined (generators, returns inside loops, try/except bodies).  Whatever a rule looks for in `f` may sit there."""
+    new = set((getattr(prog, "alignment", None) or {}).get("new_helpers", []))
+    out = []
+    for c in calls_in(f.node, scope_only=False):
+        try:
+            ts = prog.resolve_call(f, c)
+        except AnalysisError:
+            continue
+        for t in ts:
+            if isinstance(t, FuncInfo) and t.qualname in new and t.qualname != f.qualname:
+                out.append(t.qualname.split(":")[1])
+    return sorted(set(out))
+
+
+def require_readable(prog: Program, *funcs: FuncInfo) -> None:
+    for f in funcs:
+        hidden = unread_helpers(prog, f)
+        if hidden:
+            raise AnalysisError(f"{f.loc(f.node)}: {f.qualname.split(':')[1]} delegates to the new helper(s) {hidden[:4]}, which could not be read in place; the rule cannot be decided")
